@@ -12,6 +12,7 @@ pub mod refmodel;
 pub mod render;
 pub mod rep;
 pub mod rng;
+pub mod shrink;
 pub mod source;
 pub mod worker;
 pub mod workload;
